@@ -146,9 +146,18 @@ impl FromStr for Machine {
         // decompress, but scared of exceeding memory limits / zlib bombs
         let mut decoder = ZlibDecoder::new(compressed.as_slice());
         let mut buf = vec![0; MAX_DECOMPRESSED_SIZE];
-        let bytes_read = decoder
-            .read(&mut buf)
-            .map_err(|e| Error::Machine(e.to_string()))?;
+        // a single read() may return before the stream ends or the buffer is
+        // full, so read until either happens
+        let mut bytes_read = 0;
+        while bytes_read < buf.len() {
+            match decoder
+                .read(&mut buf[bytes_read..])
+                .map_err(|e| Error::Machine(e.to_string()))?
+            {
+                0 => break,
+                n => bytes_read += n,
+            }
+        }
 
         // With binencode, note that "The size of the encoded object will be the
         // same or smaller than the size that the object takes up in memory in a
